@@ -301,6 +301,7 @@ package configmigrate
 //@   property C13
 //@   modifies *
 //@   ensures error-leaves-unchanged: err != nil ==> newBody == body && !upgraded
+//@   ensures current-file-untouched: !upgraded ==> newBody == body
 
 // replaceDot rewrites elements of the nested 'ignored' array only; every entry of the top-level map is kept.
 //@ func replaceDot(diskConf yobj, key string) (err error)
